@@ -7,6 +7,13 @@ CONC_NOTE = ("Proved for all interleavings of the atomic steps of any number of 
              "a weakened ordering is detected as a broken correspondence (… no-failing-input-found), it cannot be exhibited by an SC scheduler. ")
 
 META = {
+    "C04": dict(
+        text="Kernel-checked: escape_eq_flatMap (the memchr fast path of escape_string equals escaping every byte), unescape_escape (for ALL byte strings, both modes: the reader recovers exactly the original text), escape_no_newline (no help text or label value can add or end a line), "
+             "quoted_value_reads_back / label_value_roundtrip (reading a quoted label value stops exactly at the encoder's closing quote and recovers the value), append_only, header_lines (number of header lines independent of the help's content). "
+             "Tie: TextEncoder::encode / encode_utf8 / encode_to_string of the real crate vs the Lean encoder model, byte for byte, on hand-built families of every type incl. pre-filled buffers; "
+             "the independent Lean text-format reader (exact decimal-to-binary64 conversion) is run on the REAL bytes and must return exactly the canonical families; the f64::to_string hypotheses are checked per value.",
+        note="The whole-document theorem parse (encode fams) = canon fams is being built up from the line-level lemmas (Props/C04 lists what is proved); until then the document-level round trip is the oracle run of the Lean reader on the real bytes. f64 formatting is a parameter.",
+    ),
     "C01": dict(
         text="Kernel-checked over the step machine of one shared cell (Conc.aStep; states reachable by ANY accepted item list = any threads, programs, schedules, spurious failures): cas_success_adds_delta (a successful compare-exchange found exactly the loaded value and adds exactly the thread's delta to the CURRENT value), "
              "cas_failure_no_effect (a failed attempt changes nothing and is retried), get_returns_cell, lin_inv (the cell always holds the value of the latest committed write, for every accepted run). "
